@@ -15,7 +15,8 @@ Fixpoint ast_eqb (a b : ast) : bool :=
 
 Definition err_eqb (a b : err) : bool :=
   match a, b with
-  | EParse, EParse | EAttribute, EAttribute | EKey, EKey | EFuel, EFuel | EAssert, EAssert => true
+  | EParse, EParse | EAttribute, EAttribute | EKey, EKey | EFuel, EFuel | EAssert, EAssert
+  | EIndex, EIndex | EValue, EValue => true
   | _, _ => false
   end.
 
@@ -30,9 +31,75 @@ Definition res_eqb (a b : res ast) : bool :=
 Definition check_parse (c : string * res ast) : bool := res_eqb (get_ast (fst c)) (snd c).
 
 (* cell table as an association list; (table, cell whose geometry is converted, expected) *)
-Definition lookup (tbl : list (N * cell)) (n : N) : option cell :=
-  match find (fun p => N.eqb (fst p) n) tbl with Some p => Some (snd p) | None => None end.
-
 Definition check_complement (c : list (N * cell) * ast * res ast) : bool :=
   let '(tbl, a, expected) := c in
   res_eqb (pot_complement 64 (lookup tbl) a) expected.
+
+(* the whole loop: (table in dictionary order, expected final geometries or the exception) *)
+Definition geoms (tbl : table) : list (N * ast) := map (fun p => (fst p, c_geom (snd p))) tbl.
+
+Definition check_loop (c : list (N * cell) * res (list (N * ast))) : bool :=
+  match eliminate_all 64 (fst c), snd c with
+  | Ok t, Ok expected => list_eqb (pair_eqb N.eqb ast_eqb) (geoms t) expected
+  | Err x, Err y => err_eqb x y
+  | _, _ => false
+  end.
+
+(* cellcard.split: (card text, (geometry, options) or the exception) *)
+Definition check_split (c : string * res (string * string)) : bool :=
+  match split_card (fst c), snd c with
+  | Ok (g, o), Ok (g', o') => String.eqb g g' && String.eqb o o'
+  | Err x, Err y => err_eqb x y
+  | _, _ => false
+  end.
+
+(* ---- exhaustive tie by bucketed fingerprints ----
+   The harness enumerates every string over [alpha] up to a length, runs the
+   implementation and computes, per bucket (a prefix), the number of accepted
+   strings and a weighted sum of result hashes; the same numbers are computed
+   here from the model. A bucket that differs is re-run case by case. *)
+Open Scope N_scope.
+Definition fpP : N := 2147483647.
+
+Fixpoint h_ast (a : ast) : N :=
+  match a with
+  | ASurf z sub => (1 + 3 * Z.to_N (z mod Z.of_N fpP) + 7 * match sub with None => 0 | Some k => k + 1 end) mod fpP
+  | AAnd l r => (11 + 31 * h_ast l + 37 * h_ast r) mod fpP
+  | AOr l r => (13 + 41 * h_ast l + 43 * h_ast r) mod fpP
+  | ACompl n => (17 + 47 * n) mod fpP
+  | ARawAnd l r => (19 + 53 * h_ast l + 59 * h_ast r) mod fpP
+  end.
+
+Definition h_res (r : res ast) : N :=
+  match r with
+  | Ok a => (1000 + h_ast a) mod fpP
+  | Err EParse => 1 | Err EAttribute => 2 | Err EKey => 3 | Err EFuel => 4 | Err EAssert => 5
+  | Err EIndex => 6 | Err EValue => 7
+  end.
+
+Fixpoint h_str (s : string) (acc : N) : N :=
+  match s with
+  | EmptyString => acc
+  | String c r => h_str r ((acc * 131 + N_of_ascii c) mod fpP)
+  end.
+
+Definition alpha : list ascii := ["1"; "2"; "-"; "#"; "("; ")"; ":"; " "; "."]%char.
+
+(* all strings of length exactly n *)
+Fixpoint strings_len (n : nat) : list string :=
+  match n with
+  | O => [EmptyString]
+  | S k => flat_map (fun s => map (fun c => String c s) alpha) (strings_len k)
+  end.
+
+(* (accepted, weighted hash) over prefix ++ s for all s of length <= n *)
+Definition fp_step (acc : N * N) (s : string) : N * N :=
+  let r := get_ast s in
+  (match r with Ok _ => fst acc + 1 | Err _ => fst acc end,
+   (snd acc + h_str s 7 * h_res r) mod fpP).
+
+Fixpoint fp_upto (prefix : string) (n : nat) (acc : N * N) : N * N :=
+  let acc' := fold_left (fun a s => fp_step a (prefix ++ s)%string) (strings_len n) acc in
+  match n with O => acc' | S k => fp_upto prefix k acc' end.
+
+Definition bucket_fp (prefix : string) (n : nat) : N * N := fp_upto prefix n (0, 0).
